@@ -193,16 +193,6 @@ Proof.
   - eapply pfilled_pdecl. exact Fi1.
 Qed.
 
-Lemma guards_block_exec (brs : list branch) (ev : event) (inner : stmts) (conds : list cexp) (s : state) :
-  exec_stmts brs ev (guards_block conds inner) s = nest_run ev (exec_stmts brs ev inner) conds s.
-Proof.
-  revert s. induction conds as [|c r IH]; intro s; cbn [guards_block nest_run]; [reflexivity|].
-  rewrite exec_one, exec_if. destruct (eval ev s c) as [w|f|k]; cbn [rbind]; try reflexivity.
-  destruct (truth w) as [b|f|k]; cbn [rbind]; try reflexivity.
-  destruct b; [|reflexivity].
-  rewrite exec_block_eq. cbn [run_decls rbind]. rewrite IH. reflexivity.
-Qed.
-
 Lemma row_emitted_pop (cols : prow) (nf : nat) (pre : frame) (s s2 : state) (rws : list (list value)) :
   row_emitted cols nf (enter pre s) s2 rws -> row_emitted cols nf s (pop_frame s2) rws.
 Proof.
@@ -210,42 +200,12 @@ Proof.
   rewrite F. cbn [tl]. repeat split; auto.
 Qed.
 
-Lemma nest_many (ev : event) (iv : string) (ar : bool) (fill t : string) (v : value) (cols : prow) (nf : nat) (ps : list pred) :
-  forall (s : state),
-  fget iv s = Some (t, v) ->
-  (forall m, In m (pmems cols nf 0) -> fget m s = None) -> NoDup (pmems cols nf 0) -> pdecl cols nf 0 (members s) ->
-  let run := nest_run ev (exec_stmts (prow_branches cols nf 0) ev (app_stmts (prow_sets iv ar cols nf 0) (one_stmt (SFill fill))))
-                      (map (tpred iv ar) ps) s in
-  match passes ev v ps with
-  | ROk true => match dprow ev v cols with
-                | ROk xs => exists s', run = ROk s' /\ row_emitted cols nf s s' [xs]
-                | RFault f => run = RFault f
-                | RStuck _ => True
-                end
-  | ROk false => run = ROk s
-  | RFault f => run = RFault f
-  | RStuck _ => True
-  end.
+Lemma prow_sets_flat (iv : string) (ar : bool) (cols : prow) : forall nf k, flat_stmts (prow_sets iv ar cols nf k) = true.
+Proof. induction cols as [|[name body] t IH]; intros nf k; cbn [prow_sets flat_stmts flat_stmt andb]; [reflexivity|apply IH]. Qed.
+Lemma many_inner_flat (iv : string) (ar : bool) (fill : string) (cols : prow) (nf : nat) :
+  flat_stmts (app_stmts (prow_sets iv ar cols nf 0) (one_stmt (SFill fill))) = true.
 Proof.
-  induction ps as [|p r IH]; intros s Hiv Sep Nd D; cbn [map nest_run passes].
-  - apply (inner_exec ev iv ar fill t v cols nf s Hiv Sep Nd D).
-  - rewrite dpred_dpredv.
-    destruct (dpredv ev v p) as [w|f|k] eqn:Ep; cbn [rbind]; [| |exact I].
-    + rewrite (eval_tpred ev s iv ar t v p (lookup_fget _ _ _ Hiv)); [|rewrite Ep; exact I]. rewrite Ep. cbn [rbind].
-      destruct (truth w) as [b|f|k]; cbn [rbind]; [|reflexivity|exact I].
-      destruct b; [|reflexivity].
-      assert (Hiv' : fget iv (enter [] s) = Some (t, v)) by (rewrite fget_enter; [exact Hiv|reflexivity]).
-      assert (Sep' : forall m, In m (pmems cols nf 0) -> fget m (enter [] s) = None).
-      { intros m Hm. rewrite fget_enter; [apply Sep, Hm|reflexivity]. }
-      specialize (IH (enter [] s) Hiv' Sep' Nd D). cbn zeta in IH.
-      destruct (passes ev v r) as [[|]|f|k]; cbn [rbind]; [| | |exact I].
-      * destruct (dprow ev v cols) as [xs|f|k]; [| |exact I].
-        -- destruct IH as (s2 & E2 & Em). rewrite E2. cbn [rbind]. eexists. split; [reflexivity|].
-           eapply row_emitted_pop. exact Em.
-        -- rewrite IH. reflexivity.
-      * rewrite IH. cbn [rbind]. rewrite pop_enter. reflexivity.
-      * rewrite IH. reflexivity.
-    + rewrite (eval_tpred ev s iv ar t v p (lookup_fget _ _ _ Hiv)); [|rewrite Ep; exact I]. rewrite Ep. reflexivity.
+  generalize 0. induction cols as [|[name body] t IH]; intro k; cbn [prow_sets app_stmts flat_stmts flat_stmt andb one_stmt]; [reflexivity|apply IH].
 Qed.
 
 Lemma row_emitted_refl (cols : prow) (nf : nat) (s : state) : pdecl cols nf 0 (members s) -> row_emitted cols nf s s [].
@@ -257,47 +217,56 @@ Proof.
   split; [|exact D2]. intros m Hm. rewrite (M2 m Hm). apply (M1 m Hm).
 Qed.
 
-Lemma loop_many (ev : event) (iv : string) (ar : bool) (fill : string) (cols : prow) (nf : nat) (ps : list pred) (l : list value) :
+Lemma pmem_neq_bo (cols : prow) (nf n : nat) : forall m, In m (pmems cols nf 0) -> String.eqb m (bo_name n) = false.
+Proof.
+  intros m Hm. destruct (pmems_shape cols nf 0 m Hm) as (name & idx & ->).
+  destruct (String.eqb (mem_name name idx) (bo_name n)) eqn:E; [|reflexivity]. apply String.eqb_eq in E. exfalso.
+  exact (mem_not_shape name idx "bool_op" (S (S n)) eq_refl E).
+Qed.
+
+Lemma loop_many (ev : event) (iv : string) (ar : bool) (fill : string) (cols : prow) (nf : nat) (ps : guard) (n : nat) (l : list value) :
   forall (st : state),
   (forall m, In m (pmems cols nf 0) -> fget m st = None) -> (forall m, In m (pmems cols nf 0) -> String.eqb m iv = false) ->
+  String.eqb iv (bo_name n) = false -> String.eqb (bo_name n) iv = false ->
   NoDup (pmems cols nf 0) -> pdecl cols nf 0 (members st) ->
-  let body := Blk [] (guards_block (map (tpred iv ar) ps) (app_stmts (prow_sets iv ar cols nf 0) (one_stmt (SFill fill)))) in
+  let body := loop_block iv ar ps n (app_stmts (prow_sets iv ar cols nf 0) (one_stmt (SFill fill))) in
   match many_loop ev cols ps l with
   | ROk rws => exists st', for_loop (prow_branches cols nf 0) ev iv body l st = ROk st' /\ row_emitted cols nf st st' rws
   | RFault f => for_loop (prow_branches cols nf 0) ev iv body l st = RFault f
   | RStuck _ => True
   end.
 Proof.
-  induction l as [|v r IH]; intros st Sep Hne Nd D; cbn zeta; cbn [many_loop].
+  induction l as [|v r IH]; intros st Sep Hne Hib Hbi Nd D; cbn zeta; cbn [many_loop].
   - exists st. split; [reflexivity|]. apply row_emitted_refl, D.
-  - rewrite for_loop_cons. rewrite exec_block_eq. cbn [run_decls rbind]. rewrite guards_block_exec.
-    set (s0 := enter [(iv, ("auto", v))] st).
-    assert (Hiv : fget iv s0 = Some ("auto", v)).
-    { unfold s0. apply fget_enter_hit. cbn. rewrite String.eqb_refl. reflexivity. }
-    assert (Sep0 : forall m, In m (pmems cols nf 0) -> fget m s0 = None).
-    { intros m Hm. unfold s0. rewrite fget_enter; [apply Sep, Hm|]. cbn. rewrite (Hne m Hm). reflexivity. }
-    pose proof (nest_many ev iv ar fill "auto" v cols nf ps s0 Hiv Sep0 Nd D) as N. cbn zeta in N.
-    destruct (passes ev v ps) as [b|f|k]; cbn [rbind]; [|rewrite N; reflexivity|exact I].
-    destruct b.
-    + destruct (dprow ev v cols) as [xs|f|k]; cbn [rbind]; [|rewrite N; reflexivity|exact I].
-      destruct N as (s1 & E1 & Em1). rewrite E1. cbn [rbind].
-      pose proof (row_emitted_pop cols nf _ st s1 [xs] Em1) as Em1'.
-      destruct Em1' as (F1 & R1 & M1 & D1).
-      assert (Sep1 : forall m, In m (pmems cols nf 0) -> fget m (pop_frame s1) = None).
-      { intros m Hm. unfold fget. rewrite F1. apply Sep, Hm. }
-      specialize (IH (pop_frame s1) Sep1 Hne Nd D1). cbn zeta in IH.
-      destruct (many_loop ev cols ps r) as [rest|f|k]; cbn [rbind]; [|exact IH|exact I].
-      destruct IH as (st' & E' & Em'). exists st'. split; [exact E'|].
-      change (xs :: rest) with ([xs] ++ rest). eapply row_emitted_trans; [|exact Em']. unfold row_emitted. auto.
-    + rewrite N. cbn [rbind]. unfold s0. rewrite pop_enter. apply (IH st Sep Hne Nd D).
+  - rewrite for_loop_cons.
+    destruct (gpasses ev v ps) as [b|f|k] eqn:Eg; cbn [rbind]; [| |exact I].
+    + rewrite (loop_block_exec (prow_branches cols nf 0) ev iv ar ps n _ v st (many_inner_flat iv ar fill cols nf) Hib Hbi); [|rewrite Eg; exact I].
+      rewrite Eg. destruct b.
+      * set (s0 := enter (lframe ps n iv v true) st).
+        assert (Sep0 : forall m, In m (pmems cols nf 0) -> fget m s0 = None).
+        { intros m Hm. unfold s0. rewrite fget_enter; [apply Sep, Hm|]. apply lframe_other; [apply Hne, Hm|apply (pmem_neq_bo cols nf n m Hm)]. }
+        pose proof (inner_exec ev iv ar fill "auto" v cols nf s0 (lframe_fget_iv ps n iv v true st) Sep0 Nd D) as N.
+        destruct (dprow ev v cols) as [xs|f|k]; cbn [rbind]; [|rewrite N; reflexivity|exact I].
+        destruct N as (s1 & E1 & Em1). rewrite E1. cbn [rbind].
+        pose proof (row_emitted_pop cols nf _ st s1 [xs] Em1) as Em1'.
+        destruct Em1' as (F1 & R1 & M1 & D1).
+        assert (Sep1 : forall m, In m (pmems cols nf 0) -> fget m (pop_frame s1) = None).
+        { intros m Hm. unfold fget. rewrite F1. apply Sep, Hm. }
+        specialize (IH (pop_frame s1) Sep1 Hne Hib Hbi Nd D1). cbn zeta in IH.
+        destruct (many_loop ev cols ps r) as [rest|f|k]; cbn [rbind]; [|exact IH|exact I].
+        destruct IH as (st' & E' & Em'). exists st'. split; [exact E'|].
+        change (xs :: rest) with ([xs] ++ rest). eapply row_emitted_trans; [|exact Em']. unfold row_emitted. auto.
+      * cbn [rbind]. apply (IH st Sep Hne Hib Hbi Nd D).
+    + rewrite (loop_block_exec (prow_branches cols nf 0) ev iv ar ps n _ v st (many_inner_flat iv ar fill cols nf) Hib Hbi); [|rewrite Eg; exact I].
+      rewrite Eg. reflexivity.
 Qed.
 
 Lemma pmem_neq_iv (cols : prow) (nf n : nat) : forall m, In m (pmems cols nf 0) -> String.eqb m (iv_name n) = false.
 Proof. intros m Hm. destruct (pmems_shape cols nf 0 m Hm) as (name & idx & ->). apply mem_neq_iv. Qed.
 
 (* the whole block of a SelectMany body *)
-Lemma many_block_exec (bk : backend) (cr : collref) (ps : list pred) (cols : prow) (n : nat) (ev : event) (st : state) :
-  let nf := n + 2 in
+Lemma many_block_exec (bk : backend) (cr : collref) (ps : guard) (cols : prow) (n : nat) (ev : event) (st : state) :
+  let nf := n + 2 + gsize ps in
   base_ok (c_base cr) = true -> NoDup (pmems cols nf 0) -> pdecl cols nf 0 (members st) ->
   fget (vcv_name cr n) st = None ->
   (forall m, In m (pmems cols nf 0) -> fget m st = None) ->
@@ -332,7 +301,9 @@ Proof.
   assert (D2 : pdecl cols nf 0 (members st2)).
   { rewrite Mem1. rewrite M. exact D. }
   destruct cval; cbn [rbind]; try exact I; try reflexivity.
-  pose proof (loop_many ev (iv_name n) (c_arrow cr) (b_fill bk) cols nf ps l st2 Sep2 (pmem_neq_iv cols nf n) Nd D2) as L.
+  assert (Hib : String.eqb (iv_name n) (bo_name n) = false) by (apply nm_neq; [reflexivity|reflexivity|lia]).
+  assert (Hbi : String.eqb (bo_name n) (iv_name n) = false) by (apply nm_neq; [reflexivity|reflexivity|lia]).
+  pose proof (loop_many ev (iv_name n) (c_arrow cr) (b_fill bk) cols nf ps n l st2 Sep2 (pmem_neq_iv cols nf n) Hib Hbi Nd D2) as L.
   cbn zeta in L. unfold many_inner. fold nf.
   destruct (many_loop ev cols ps l) as [rws|f|k]; [|rewrite L; reflexivity|exact I].
   destruct L as (st3 & E3 & (F3 & R3 & M3 & D3)). rewrite E3. cbn [rbind].
@@ -350,13 +321,13 @@ Definition body_ok (b : qbody) : bool :=
 Definition query_ok (q : query) : bool :=
   (match q_filter q with None => true | Some c => bases_ok c end) && body_ok (q_body q).
 Definition bmems (b : qbody) (n : nat) : list string :=
-  match b with QRow r => rmems r (n + row_size r) 0 | QMany _ _ cols => pmems cols (n + 2) 0 end.
+  match b with QRow r => rmems r (n + row_size r) 0 | QMany _ g cols => pmems cols (n + 2 + gsize g) 0 end.
 Definition bvars (b : qbody) (n : nat) : list string :=
   match b with QRow r => rvars r n | QMany cr _ _ => [vcv_name cr n] end.
 (* the state of the class members between events: every column member declared with its type, vector
    members empty *)
 Definition binit (b : qbody) (n : nat) (ms : frame) : Prop :=
-  match b with QRow r => members_init r (n + row_size r) 0 ms | QMany _ _ cols => pdecl cols (n + 2) 0 ms end.
+  match b with QRow r => members_init r (n + row_size r) 0 ms | QMany _ g cols => pdecl cols (n + 2 + gsize g) 0 ms end.
 
 Lemma body_exec (bk : backend) (b : qbody) (n : nat) (ev : event) (st : state) :
   body_ok b = true -> NoDup (bmems b n) -> binit b n (members st) ->
@@ -522,7 +493,7 @@ Qed.
 
 (* SelectMany is the LINQ one: with total predicates and bodies, the rows are the bodies' values on the
    filtered collection, in collection order *)
-Lemma many_is_map_filter (ev : event) (cols : prow) (ps : list pred) (f : value -> bool) (g : value -> list value) (l : list value) :
+Lemma many_is_map_filter (ev : event) (cols : prow) (ps : guard) (f : value -> bool) (g : value -> list value) (l : list value) :
   passes_total ev ps l f -> (forall v, In v l -> f v = true -> dprow ev v cols = ROk (g v)) ->
   many_loop ev cols ps l = ROk (map g (filter f l)).
 Proof.
